@@ -6,6 +6,10 @@ Applies the patch to /repo (which must be clean), optionally runs the pinned sui
 property, ALWAYS restores /repo (git checkout -- .) and regenerates the Lean files that are generated from the source, and prints
 one JSON line per check: {"patch":..., "prop":..., "rc":..., "violations":[...], "wall_s":...}.
 Never used by a registered check; evidence written while a patch is applied is restored from git afterwards.
+
+With --scratch the patch is NOT applied to /repo: a scratch worktree of /repo and a scratch copy of /verif (with its Lean build) are
+made under /tmp/pm_<pid>, the checks run there (SAGEOPT_REPO points the harness at the worktree), and both are removed afterwards;
+several such runs can go on at the same time, and next to a run of the registered checks.
 """
 import json
 import os
@@ -30,6 +34,8 @@ def main():
         tier = sys.argv[sys.argv.index('--tier') + 1]
         args.remove(tier)
     patch, props = os.path.abspath(args[0]), args[1:]
+    if '--scratch' in sys.argv:
+        return scratch(patch, props, tier)
     if sh('git -C %s status --porcelain' % REPO).stdout.strip():
         print('refusing: %s is not clean' % REPO)
         return 2
@@ -66,6 +72,41 @@ def main():
         sh('%s %s/harness/translate.py' % (PY, VERIF), cwd=VERIF)
         sh('git -C %s checkout -- evidence' % VERIF)
         sh('cd %s/lean && lake build SageoptModel.Drv.All' % VERIF)
+    return 0
+
+
+def scratch(patch, props, tier):
+    S = '/tmp/pm_%d' % os.getpid()
+    sh('rm -rf %s; mkdir -p %s' % (S, S))
+    try:
+        r = sh('git -C %s worktree add -q --detach %s/repo HEAD' % (REPO, S))
+        if r.returncode != 0:
+            print('worktree failed:', r.stdout)
+            return 2
+        sh('rsync -a --exclude .git --exclude replays %s/ %s/verif/; mkdir -p %s/verif/replays' % (VERIF, S, S))
+        r = sh('git -C %s/repo apply %s' % (S, patch))
+        if r.returncode != 0:
+            print('patch does not apply:', r.stdout)
+            return 2
+        for p in props:
+            t0 = time.time()
+            env = dict(os.environ, PYTHONDONTWRITEBYTECODE='1', SAGEOPT_REPO=S + '/repo')
+            r = sh('%s %s/verif/harness/vcheck.py %s --tier %s' % (PY, S, p, tier), cwd=S + '/verif', env=env, timeout=3600)
+            viol = [l for l in r.stdout.splitlines() if l.startswith('VIOLATION')]
+            rec = {'patch': os.path.relpath(patch, VERIF), 'prop': p, 'tier': tier, 'rc': r.returncode, 'violations': viol[:4],
+                   'tail': r.stdout.strip().splitlines()[-1:] if r.stdout.strip() else [], 'wall_s': round(time.time() - t0, 1)}
+            for l in viol[:1]:
+                rp = l.split('replay=')[1].split()[0]
+                try:
+                    d = json.load(open(os.path.join(S, 'verif', rp)))
+                    v = d['violations'][0] if 'violations' in d else d
+                    rec['what'] = (v.get('what') or '')[:300]
+                except Exception as e:  # noqa: BLE001
+                    rec['what'] = 'unreadable replay: %s' % e
+            print(json.dumps(rec), flush=True)
+    finally:
+        sh('git -C %s worktree remove --force %s/repo' % (REPO, S))
+        sh('rm -rf %s; git -C %s worktree prune' % (S, REPO))
     return 0
 
 
